@@ -13,16 +13,24 @@ RULE = ('the real Rmcp.establish_session / send_and_receive_raw x n / close_sess
         'none/MD2/MD5/password/OEM, boundary-biased temporary / final session ids and initial sequence numbers '
         '(0, 1, 0x7fffffff, 0xfffffffd..0xffffffff so that the wrap is crossed), user names and passwords of 0..16 '
         'bytes, privilege levels 2..5, 0..8 subsequent requests, a second session on the same Session object, '
-        'and silence or an error completion code injected at every datagram of the handshake, a request and the '
-        'close.  Judged: no datagram is flagged by the BMC; the authentication type asked for is the strongest '
-        'one offered that IpmiMsg.pack implements; an un-faulted session reaches "closed"; a faulted one stops '
-        'with an error at that datagram.  The same reply script is played to the Lean model of the client and the '
-        'datagram lists, outcomes and final session state are compared.  Distinct by scenario.')
+        'silence or an error completion code injected at every datagram of the handshake, a request and the '
+        'close, and max_retries 0..3 with datagrams lost (Spec.BmcSession.stepLost: the monitor counts them, the BMC '
+        'does not act) at every in-session and handshake position, in runs within and beyond the retry budget, so '
+        'that retransmissions are on the wire; close_session() called a second time; close_session() called as '
+        'clean-up after a failure at each step.  Judged: no datagram (retransmissions included) is flagged by the '
+        'BMC; the authentication type asked for is the strongest one offered that IpmiMsg.pack implements; the '
+        'number of datagrams and the outcome are those of a console that sends each request at most max_retries+1 '
+        'times and stops at the first failure; an un-faulted session reaches "closed"; a session the BMC granted and '
+        'the console knows of is closed by the clean-up (one Close Session, BMC closed), nothing is sent otherwise.  '
+        'The same reply script is '
+        'played to the Lean model of the client and every datagram (byte for byte), the outcome and the final '
+        'session state are compared.  Distinct by scenario.')
 ASSUMPTIONS = [
     'model of establish_session / _send_and_receive / close_session (lean/PyIpmi/Model/Session.lean) is hand-written and tied by this correspondence run',
     'reference BMC (lean/PyIpmi/Spec/BmcSession.lean) is my reading of IPMI v1.5 section 6.11/6.12 and the session commands; '
     'it accepts any sequence number on Activate Session and a first in-session number within 8 counts of the assigned one',
-    'max_retries=0 and an empty receive queue (retries, stale frames and the keep-alive thread belong to C04 / C14)',
+    'an empty receive queue and a peer that answers a datagram at most once (stale / duplicated frames and the keep-alive '
+    'thread belong to C04 / C14); a lost datagram is seen by the monitor (it sits on the console side of the wire)',
     'user names are ASCII (IPMI user names are ASCII); the digest function is a parameter of the theorems',
     'random.randrange is pinned and its value passed to the model',
 ]
@@ -80,7 +88,8 @@ def run_real(drv, sc):
     from pyipmi.session import Session
     from pyipmi import Target
     res = {'sent': [], 'replies': [], 'verdicts': [], 'rounds': []}
-    rm = R.Rmcp(keep_alive_interval=0, quirks_cfg={'rmcp_ignore_sdu_length': bool(sc.get('ignore', 0))})
+    rm = R.Rmcp(keep_alive_interval=0, max_retries=sc.get('max_retries', 0),
+                quirks_cfg={'rmcp_ignore_sdu_length': bool(sc.get('ignore', 0))})
     session = Session()
     session.set_session_type_rmcp('192.0.2.1', 623)
     pw = bytes.fromhex(sc['pw']['hex']) if sc['pw']['kind'] == 'bytes' else sc['pw']['text']
@@ -102,7 +111,9 @@ def run_real(drv, sc):
                 idx = len(sent)
                 sent.append(d)
                 inj = inject.get(idx)
-                if inj is not None and inj != 'silent':
+                if inj == 'silent':
+                    v = drv.ask('bmc-lost ' + lean.hexs(d))
+                elif inj is not None:
                     v = drv.ask('bmc-err %d %s' % (inj, lean.hexs(d)))
                 else:
                     v = drv.ask('bmc ' + lean.hexs(d))
@@ -115,19 +126,37 @@ def run_real(drv, sc):
                 return []
             rm._sock = FakeSock(responder=responder)
             outcome = 'ok'
+            stage = 'establish'
+            n_main = None
+            cleanup = None
             try:
                 rm.establish_session(session)
+                stage = 'requests'
                 for _ in range(rnd['n']):
                     rm.send_and_receive_raw(Target(0x20), 0, 6, b'\x01')
+                stage = 'close'
                 rm.close_session()
+                if sc.get('closes', 1) == 2:
+                    rm.close_session()        # a closed session is not closed again
             except Exception as e:  # noqa
                 outcome = _tag(e)
+                n_main = len(sent)
+                # what a caller does in its `finally`: close what was opened (possible once the session is attached)
+                if sc.get('closes', 1) == 'c' and stage != 'close' and rm._session is not None:
+                    cleanup = 'ok'
+                    try:
+                        rm.close_session()
+                    except Exception as e2:  # noqa
+                        cleanup = _tag(e2)
+            if n_main is None:
+                n_main = len(sent)
             a = session.auth_type
             state = '%d %d %d %d %d %d' % (256 if a is None else a, session.sid, session.sequence_number,
                                            1 if session.activated else 0, rm.next_sequence_number,
                                            1 if rm._session is not None else 0)
             res['rounds'].append({'outcome': outcome, 'sent': sent, 'replies': replies, 'verdicts': verdicts,
-                                  'state': state, 'state0': state0, 'bmc': drv.ask('bmc-state')})
+                                  'state': state, 'state0': state0, 'bmc': drv.ask('bmc-state'), 'n_main': n_main,
+                                  'cleanup': cleanup, 'stage': stage})
     finally:
         R.random.randrange = saved
     return res
@@ -137,9 +166,45 @@ def _model_line(sc, rnd, rr, pref, er):
     pw = bytes.fromhex(sc['pw']['hex']) if sc['pw']['kind'] == 'bytes' else sc['pw']['text'].encode()
     reps = ' '.join('silent' if r is None else lean.hexs(r) for r in rr['replies'])
     s0 = rr['state0']
-    return 'model %s %s %d %s %s %d %d %d %d %d %d %d %s' % (
-        pref, er, 1 if sc.get('ignore') else 0, lean.hexs(sc['user'].encode()), lean.hexs(pw), sc['priv'],
+    return 'model %s %s %d %d %s %s %s %d %d %d %d %d %d %d %s' % (
+        pref, er, 1 if sc.get('ignore') else 0, sc.get('max_retries', 0), sc.get('closes', 1),
+        lean.hexs(sc['user'].encode()), lean.hexs(pw),
+        sc['priv'],
         rnd['outSeq'], rnd['n'], s0[0], s0[1], s0[2], s0[3], reps)
+
+
+def _expect(sc, rnd):
+    """What a console that follows the protocol does against this BMC and fault plan: every request is
+    transmitted at most max_retries+1 times (a new datagram each time), the life cycle stops at the first
+    request that fails.  Returns (number of datagrams, outcome class).  Datagram numbers count everything
+    transmitted, retransmissions included."""
+    R = sc.get('max_retries', 0)
+    inject = dict((int(k), v) for k, v in rnd.get('inject', {}).items())
+    if inject.get(0) is not None:            # the presence ping is not repeated and has no completion code
+        return 1, ('py' if inject[0] == 'silent' else 'DecodingError')
+    idx = 1
+    for kind in ['hs'] * 4 + ['req'] * rnd['n'] + ['close']:
+        for _ in range(R + 1):
+            f = inject.get(idx)
+            idx += 1
+            if f == 'silent':
+                continue
+            if f is not None and f != 0 and kind != 'req':
+                return idx, 'CompletionCodeError'
+            break                              # answered (send_and_receive_raw hands a completion code to its caller)
+        else:
+            return idx, 'RetryError'
+    return idx, 'ok'
+
+
+def _kind_of(d):
+    """'ping' | command number of the IPMI request in a LAN datagram (None when it is too short)"""
+    if len(d) > 3 and d[3] == 6:
+        return 'ping'
+    if len(d) < 5:
+        return None
+    off = 4 + (10 if d[4] == 0 else 26)
+    return d[off + 5] if len(d) > off + 5 else None
 
 
 def judge(ctx, drv, sc, pref, er, tie=True, verbose=False):
@@ -153,24 +218,35 @@ def judge(ctx, drv, sc, pref, er, tie=True, verbose=False):
                       bytes.fromhex(b['pw']) == (bytes.fromhex(sc['pw']['hex']) if sc['pw']['kind'] == 'bytes'
                                                  else sc['pw']['text'].encode()))
         if verbose:
-            print(' round %d: outcome %s; BMC %s' % (ri, rr['outcome'], rr['bmc']))
+            print(' round %d: max_retries %d, outcome %s; BMC %s' % (ri, sc.get('max_retries', 0), rr['outcome'], rr['bmc']))
             for i, (d, v) in enumerate(zip(rr['sent'], rr['verdicts'])):
                 print('   tx[%d] %s' % (i, lean.hexs(d)))
                 print('        BMC: %s%s' % (v[:100], ' (injected: %s)' % inject[i] if i in inject else ''))
         ctx.count('outcome:' + rr['outcome'].split(':')[0])
         ctx.count('datagrams', len(rr['sent']))
-        # ---- model tie
+        ctx.count('datagrams-lost', sum(1 for i in range(len(rr['sent'])) if inject.get(i) == 'silent'))
+        ctx.count('retransmissions', sum(1 for i in range(1, len(rr['sent']))
+                                         if inject.get(i - 1) == 'silent' and _kind_of(rr['sent'][i]) == _kind_of(rr['sent'][i - 1])))
+        # ---- model tie: outcome, every datagram byte for byte, final session state
         if tie:
             m = drv.ask(_model_line(sc, rnd, rr, pref, er))
-            code_s = '%s | %s | %s' % (rr['outcome'], ' '.join(lean.hexs(d) for d in rr['sent']) or '-', rr['state'])
             parts = m.split(' | ')
-            if len(parts) == 3:
-                m2 = '%s | %s | %s' % (parts[0], ' '.join(x.split(':', 1)[1] for x in parts[1].split()) if parts[1] != '-' else '-',
-                                       parts[2])
+            if len(parts) != 3:
+                ctx.disagree('lifecycle', case, m[:300], 'outcome | datagrams | state')
             else:
-                m2 = m
-            if m2 != code_s:
-                ctx.disagree('lifecycle', case, m2[:1500], code_s[:1500])
+                mds = [] if parts[1] == '-' else [x.split(':', 1) for x in parts[1].split()]
+                if parts[0] != rr['outcome']:
+                    ctx.disagree('lifecycle:outcome', case, parts[0], rr['outcome'])
+                for k in range(max(len(mds), len(rr['sent']))):
+                    mk = mds[k] if k < len(mds) else ['-', '(none)']
+                    ck = lean.hexs(rr['sent'][k]) if k < len(rr['sent']) else '(none)'
+                    if mk[1] != ck:
+                        ctx.disagree('lifecycle:datagram', dict(case, datagram=k), 'datagram %d (%s): %s' % (k, mk[0], mk[1]),
+                                     'datagram %d: %s' % (k, ck))
+                        break
+                    ctx.count('datagrams-compared')
+                if parts[2] != rr['state']:
+                    ctx.disagree('lifecycle:state', case, parts[2], rr['state'])
         # ---- property: the BMC never objects
         offered_impl = [a for a in impl if b['caps'] >> CAP_BITS.get(a, 7) & 1]
         if not offered_impl:
@@ -182,47 +258,78 @@ def judge(ctx, drv, sc, pref, er, tie=True, verbose=False):
                             'authentication type the library implements (support=0x%02x)' % b['caps'], case,
                             expected='an error', observed='ok')
             continue
+        flagged = False
         for i, v in enumerate(rr['verdicts']):
             if v.startswith('error'):
                 why = v.split()[1]
-                step = STEP_NAMES[i] if i < 5 else 'datagram %d' % i
+                k = _kind_of(rr['sent'][i])
+                step = {'ping': 'ping', 0x38: 'Get Channel Authentication Capabilities', 0x39: 'Get Session Challenge',
+                        0x3a: 'Activate Session', 0x3b: 'Set Session Privilege Level', 0x3c: 'Close Session',
+                        0x01: 'Get Device ID'}.get(k, 'command %s' % k)
+                retx = i > 0 and inject.get(i - 1) == 'silent'
                 ctx.violate('C06:bmc-objects:%s' % why,
-                            'the reference BMC flags datagram %d (%s): %s' % (i, step, why), case,
+                            'the reference BMC flags datagram %d (%s%s): %s' % (i, step, ', retransmission after a time-out'
+                                                                               if retx else '', why), case,
                             expected='a datagram that follows the v1.5 session rules', observed=lean.hexs(rr['sent'][i]))
+                flagged = True
                 break
+        if flagged:
+            continue
+        # ---- authentication-type choice (as seen in Get Session Challenge)
+        chal = [d for d in rr['sent'] if _kind_of(d) == 0x39 and d[4] == 0]
+        if chal:
+            d = chal[0]
+            chosen = d[20] & 0x0f if len(d) > 20 else None
+            want = drv.ask('strongest %d %s' % (b['caps'], ','.join(str(x) for x in impl)))
+            ctx.count('auth-chosen:%s' % chosen)
+            if want != 'none' and chosen != int(want):
+                ctx.violate('C06:auth-choice:%s' % ('unimplemented-type-preferred' if chosen not in impl
+                                                     else 'weaker-type-preferred'),
+                            'BMC offers support=0x%02x; the library asks for authentication type %s although it '
+                            'implements the stronger offered type %s' % (b['caps'], chosen, want) +
+                            ('' if chosen in impl else ' (and it does not implement %s: %s)' % (chosen, rr['outcome'])),
+                            case, expected='authentication type %s' % want, observed='type %s, outcome %s' % (chosen, rr['outcome']))
+                continue
+        if not conforming:
+            continue
+        # ---- life cycle: number of datagrams and outcome of a console that follows the protocol
+        want_n, want_o = _expect(sc, rnd)
+        got_o = rr['outcome'].split(':')[0]
+        main, extra = rr['sent'][:rr['n_main']], rr['sent'][rr['n_main']:]
+        # ---- clean-up after a failure: a session that was granted and is known to the console gets closed
+        if rr['cleanup'] is not None and not any(i >= rr['n_main'] for i in inject):
+            known = any(_kind_of(d) == 0x3b for d in main)        # Activate Session was answered
+            ctx.count('cleanup-close:%s' % ('session-known' if known else 'no-session'))
+            if known and (len(extra) != 1 or _kind_of(extra[0]) != 0x3c or not rr['bmc'].startswith('closed')):
+                ctx.violate('C06:session-left-open', 'opening / using the session failed with %s at stage %s after the BMC had '
+                            'granted the session; close_session() then sent %d datagram(s) and the BMC is left in state %s'
+                            % (rr['outcome'], rr['stage'], len(extra), rr['bmc']), case,
+                            expected='one Close Session for the granted id, BMC closed',
+                            observed='%d datagram(s), BMC %s' % (len(extra), rr['bmc']))
+                continue
+            if not known and extra:
+                ctx.violate('C06:close-without-session', 'close_session() sent %d datagram(s) although no session had been '
+                            'activated' % len(extra), case, expected='nothing', observed=lean.hexs(extra[0]))
+                continue
+        if want_o == 'ok':
+            if rr['outcome'] != 'ok' or not rr['bmc'].startswith('closed'):
+                ctx.violate('C06:session-fails:%s' % got_o,
+                            'against a conforming BMC%s the session life cycle ends with %s (BMC state %s) after %d datagrams'
+                            % (' (faults within the retry budget)' if inject else '', rr['outcome'], rr['bmc'], len(rr['sent'])),
+                            case, expected='ok, BMC closed', observed='%s, %s' % (rr['outcome'], rr['bmc']))
+            elif len(main) != want_n:
+                ctx.violate('C06:datagram-count', 'life cycle used %d datagrams instead of %d'
+                            % (len(main), want_n), case, expected=want_n, observed=len(main))
         else:
-            # ---- authentication-type choice (as seen in Get Session Challenge)
-            if len(rr['sent']) >= 3:
-                d = rr['sent'][2]
-                chosen = d[4 + 10 + 6] & 0x0f if len(d) > 20 else None
-                want = drv.ask('strongest %d %s' % (b['caps'], ','.join(str(x) for x in impl)))
-                ctx.count('auth-chosen:%s' % chosen)
-                if want != 'none' and chosen != int(want):
-                    ctx.violate('C06:auth-choice:%s' % ('unimplemented-type-preferred' if chosen not in impl
-                                                         else 'weaker-type-preferred'),
-                                'BMC offers support=0x%02x; the library asks for authentication type %s although it '
-                                'implements the stronger offered type %s' % (b['caps'], chosen, want) +
-                                ('' if chosen in impl else ' (and it does not implement %s: %s)' % (chosen, rr['outcome'])),
-                                case, expected='authentication type %s' % want, observed='type %s, outcome %s' % (chosen, rr['outcome']))
-                    continue
-            if not inject:
-                if conforming:
-                    if rr['outcome'] != 'ok' or not rr['bmc'].startswith('closed'):
-                        ctx.violate('C06:session-fails:%s' % rr['outcome'].split(':')[0],
-                                    'against a conforming BMC the session life cycle ends with %s (BMC state %s) after %d datagrams'
-                                    % (rr['outcome'], rr['bmc'], len(rr['sent'])), case,
-                                    expected='ok, BMC closed', observed='%s, %s' % (rr['outcome'], rr['bmc']))
-                    elif len(rr['sent']) != 5 + rnd['n'] + 1:
-                        ctx.violate('C06:datagram-count', 'life cycle used %d datagrams instead of %d'
-                                    % (len(rr['sent']), 6 + rnd['n']), case, expected=6 + rnd['n'], observed=len(rr['sent']))
-            else:
-                k = min(inject)
-                if rr['outcome'] == 'ok':
-                    ctx.violate('C06:fault-ignored', 'silence / error reply at datagram %d is not reported' % k, case,
-                                expected='an error', observed='ok')
-                elif len(rr['sent']) != k + 1:
-                    ctx.violate('C06:continues-after-fault', '%d datagrams were sent although datagram %d failed'
-                                % (len(rr['sent']), k), case, expected=k + 1, observed=len(rr['sent']))
+            if rr['outcome'] == 'ok':
+                ctx.violate('C06:fault-ignored', 'silence / error reply is not reported (expected %s after %d datagrams)'
+                            % (want_o, want_n), case, expected=want_o, observed='ok')
+            elif len(main) > want_n:
+                ctx.violate('C06:continues-after-fault', '%d datagrams were sent although the life cycle had failed after %d'
+                            % (len(main), want_n), case, expected=want_n, observed=len(main))
+            elif len(main) < want_n:
+                ctx.violate('C06:gives-up-early', 'only %d datagrams were sent; max_retries=%d allows %d'
+                            % (len(main), sc.get('max_retries', 0), want_n), case, expected=want_n, observed=len(main))
 
 
 # ----------------------------------------------------------------- generators
@@ -258,7 +365,8 @@ def _pwhex(pw):
     return pw['hex'] if pw['kind'] == 'bytes' else pw['text'].encode().hex()
 
 
-def _scenario(rng, caps=None, inSeq0=None, n=None, user=None, pw=None, priv=None, inject=None, rounds=1, ignore=0):
+def _scenario(rng, caps=None, inSeq0=None, n=None, user=None, pw=None, priv=None, inject=None, rounds=1, ignore=0,
+              max_retries=0, closes=1):
     user = _user(rng) if user is None else user
     pw = _pw(rng) if pw is None else pw
     priv = rng.choice([2, 3, 4, 4, 5]) if priv is None else priv
@@ -271,7 +379,8 @@ def _scenario(rng, caps=None, inSeq0=None, n=None, user=None, pw=None, priv=None
                    'outSeq': rng.choice([1, 0xfffffffe, rng.randrange(1, 0xffffffff)]),
                    'n': rng.randrange(0, 5) if n is None else n,
                    'inject': inject or {}})
-    return {'op': 'session', 'user': user, 'pw': pw, 'priv': priv, 'ignore': ignore, 'rounds': rs}
+    return {'op': 'session', 'user': user, 'pw': pw, 'priv': priv, 'ignore': ignore, 'max_retries': max_retries,
+            'closes': closes, 'rounds': rs}
 
 
 def _scenarios(rng, tier):
@@ -303,12 +412,52 @@ def _scenarios(rng, tier):
             n = 1
             idx = k if k < 6 else 5 + n
             out.append(('fault@%d' % k, _scenario(rng, caps=rng.choice([0x04, 0x10, 0x01]), n=n, inject={str(idx): f})))
+    # retransmissions: max_retries 1..3, datagrams lost at every position of the life cycle (handshake, Set Session
+    # Privilege Level, requests, close), runs of 1..max_retries losses (within the budget) and max_retries+1 (beyond)
+    for R in (1, 2, 3):
+        n = 2
+        for pos in range(1, 5 + n + 1):                       # the exchange that suffers the losses (1 = Get Channel Auth Cap)
+            for run in sorted(set([1, R, R + 1])):
+                inj = dict((str(pos + i), 'silent') for i in range(run))
+                out.append(('retry@%s' % ('handshake' if pos < 4 else 'session'),
+                            _scenario(rng, caps=rng.choice([0x04, 0x10, 0x01]), n=n, inject=inj, max_retries=R,
+                                      inSeq0=rng.choice([None, 0xfffffffd, 0xfffffffe, 0xffffffff]))))
+    # several losses scattered over one life cycle, never more than max_retries in a row
+    for _ in range(12 if tier == 'quick' else 300):
+        R = rng.randrange(1, 4)
+        n = rng.randrange(0, 4)
+        inj, idx, budget = {}, 1, 0
+        for _e in range(5 + n):
+            k = rng.choice([0, 0, 1, rng.randrange(0, R + 1)])
+            for i in range(k):
+                inj[str(idx + i)] = 'silent'
+            idx += k + 1
+        out.append(('retry-scattered', _scenario(rng, caps=rng.choice([0x04, 0x10, 0x01, 0x15]), n=n, inject=inj, max_retries=R,
+                                                 inSeq0=rng.choice([None, None, 0xfffffffc, 0xffffffff]))))
+    # an error completion code on a retransmitted request
+    for R in (1, 2):
+        for pos in (1, 2, 3, 4, 7):
+            out.append(('retry-then-error', _scenario(rng, caps=rng.choice([0x04, 0x10]), n=2, max_retries=R,
+                                                      inject={str(pos): 'silent', str(pos + 1): 0xc1})))
     # a second session on the same Session / Rmcp objects
     for _ in range(3 if tier == 'quick' else 30):
-        out.append(('two-sessions', _scenario(rng, caps=rng.choice([0x04, 0x10, 0x01, 0x15]), rounds=2)))
+        out.append(('two-sessions', _scenario(rng, caps=rng.choice([0x04, 0x10, 0x01, 0x15]), rounds=2,
+                                              max_retries=rng.choice([0, 0, 2]))))
     out.append(('ignore-len', _scenario(rng, caps=0x15, ignore=1)))
+    # a failure at every step (silence / error completion code), then the caller's clean-up close_session()
+    for k in range(1, 6):
+        for f in (['silent', 0x81, 0xd4] if k != 5 else ['silent']):
+            for R in (0, 1):
+                inj = dict((str(k + i), f) for i in range(R + 1)) if f == 'silent' else {str(k): f}
+                out.append(('fault-then-cleanup@%d' % k, _scenario(rng, caps=rng.choice([0x04, 0x10, 0x01]), n=1, inject=inj,
+                                                                   max_retries=R, closes='c',
+                                                                   inSeq0=rng.choice([None, 0xfffffffe, 0xffffffff]))))
+    # close_session() called twice: the second call must not put anything on the wire
+    for c in (0x01, 0x04, 0x10):
+        out.append(('close-twice', _scenario(rng, caps=c, closes=2, rounds=rng.choice([1, 2]))))
     for _ in range(20 if tier == 'quick' else 600):
-        out.append(('random', _scenario(rng, ignore=rng.randrange(2))))
+        out.append(('random', _scenario(rng, ignore=rng.randrange(2), max_retries=rng.choice([0, 0, 0, 1, 3]),
+                                        closes=rng.choice([1, 1, 2]))))
     return out
 
 
@@ -325,26 +474,34 @@ def run(ctx):
     scs = _scenarios(rng, ctx.tier)
     for i, (kind, sc) in enumerate(scs):
         ctx.case(('session', repr(sc)))
-        ctx.count('scenario:' + kind.split('@')[0])
+        ctx.count('scenario:' + kind)
         judge(ctx, drv, sc, pref, er)
         if i in (0, 40, 100):
             ctx.sample({'kind': kind, 'scenario': sc})
         if ctx.time_left() < 20:
             ctx.notes.append('time budget reached after %d of %d scenarios' % (i, len(scs)))
             break
-    # model client against the reference BMC entirely in Lean (what the theorem is about), sampled
+    # model client against the reference BMC behind a lossy network, entirely in Lean (what the theorems are about), sampled
     for _ in range(40 if ctx.tier == 'quick' else 400):
-        sc = _scenario(rng, caps=rng.choice([0x01, 0x04, 0x10, 0x15, 0x37, 0x12, 0x03]))
+        R = rng.choice([0, 0, 1, 2, 3])
+        sc = _scenario(rng, caps=rng.choice([0x01, 0x04, 0x10, 0x15, 0x37, 0x12, 0x03]), max_retries=R)
         r = sc['rounds'][0]
         b = r['bmc']
-        line = 'loop i %d %s %s %d %d %s %d %d %d %d' % (b['caps'], lean.hexs(b['user'].encode()), lean.hexs(bytes.fromhex(b['pw'])),
-                                                         b['priv'], b['tempSid'], b['challenge'], b['sid'], b['inSeq0'],
-                                                         r['outSeq'], r['n'])
+        lost, idx = [], 1
+        for _e in range(5 + r['n']):
+            k = rng.randrange(0, R + 1) if rng.random() < 0.4 else 0
+            lost += list(range(idx, idx + k))
+            idx += k + 1
+        line = 'loop i %d %s %s %d %d %s %d %d %d %d %d %s' % (
+            b['caps'], lean.hexs(b['user'].encode()), lean.hexs(bytes.fromhex(b['pw'])), b['priv'], b['tempSid'],
+            b['challenge'], b['sid'], b['inSeq0'], r['outSeq'], r['n'], R, ','.join(str(x) for x in lost) or '-')
         m = drv.ask(line)
         ctx.case(('loop', line), nontrivial=True)
         ctx.count('lean-closed-loop')
-        if not m.startswith('ok | closed none | %d' % (6 + r['n'])):
-            ctx.disagree('closed-loop', {'line': line}, m, 'ok | closed none | %d' % (6 + r['n']))
+        ctx.count('lean-closed-loop-lost', len(lost))
+        want = 'ok | closed none | %d' % (6 + r['n'] + len(lost))
+        if not m.startswith(want):
+            ctx.disagree('closed-loop', {'line': line}, m, want)
 
 
 def search(ctx):
